@@ -68,6 +68,23 @@ func newMergeRig(dir string, n int, rng *rand.Rand, twin bool) (*mergeRig, error
 	m := &mergeRig{rt: rt, n: n, warmCnt: map[string]int{}}
 	// distinct random indices 00..98, sentinel 99
 	perm := rng.Perm(99)[:n]
+	if n >= 2 && !twin {
+		// always one index that is not a valid octal numeral (08, 09) behind a smaller one
+		perm[0], perm[1] = rng.IntN(8), 8+rng.IntN(2)
+		for i := 2; i < n; i++ {
+			for perm[i] <= 9 {
+				perm[i] = 10 + rng.IntN(89)
+			}
+		}
+		for i := 2; i < n; i++ { // keep them distinct
+			for j := 2; j < i; j++ {
+				if perm[i] == perm[j] {
+					perm[i] = 10 + (perm[i]-9)%89
+					j = 1
+				}
+			}
+		}
+	}
 	sort.Ints(perm)
 	for pos := 0; pos <= n; pos++ {
 		idx := "99"
@@ -317,6 +334,8 @@ func viewOfSpec(s *rspec.Spec) *CView {
 			v.Devs[d.Path] = devStr(d)
 		}
 		v.Res = flattenRes(api.FromOCILinuxResources(s.Linux.Resources, nil))
+		// the device-cgroup allow rules the generator derives from injected devices are not compared (§3 C03)
+		delete(v.Res.S, "devrules")
 		if r := s.Linux.Resources; r != nil && r.BlockIO != nil && r.BlockIO.Weight != nil {
 			v.Res.S["blockio"] = fmt.Sprint(*r.BlockIO.Weight)
 		}
@@ -571,6 +590,24 @@ func (mc *mergeChecker) checkC03(c *MCase, exp *Expect, obs *mObs, sample func()
 		r.Violate("C03/combined-differs/"+fam,
 			fmt.Sprintf("applying the combined adjustment differs from applying each plugin's adjustment in turn (want = sequential): %s", d), c)
 	}
+	// "in turn" by the reference semantics as well: what the combined adjustment makes of the original equals
+	// the model container after all plugins, for the keyed families (a change common to both generator runs
+	// above, e.g. in how untouched entries are rewritten, cancels out in the differential comparison)
+	if exp.Final != nil {
+		vh := va.clone()
+		for k := range vh.Ann {
+			if strings.HasPrefix(k, "verif.") { // written by the harness resolvers (CDI, block I/O, RDT)
+				delete(vh.Ann, k)
+			}
+		}
+		for fam, d := range diffView(exp.Final, vh) {
+			if fam == "env" || fam == "annotation" || fam == "mount" || fam == "device" {
+				bad = true
+				r.Violate("C03/combined-differs-from-reference/"+fam,
+					fmt.Sprintf("applying the combined adjustment to the original differs from the reference result of applying each plugin's adjustment in turn (want = reference): %s", d), c)
+			}
+		}
+	}
 	// structural oracle for what the generator does not carry: every resource field / cgroups path /
 	// OOM score in the combined reply equals its final owner's value, nothing unowned is set
 	var got ResFlat
@@ -700,6 +737,11 @@ func (mc *mergeChecker) checkC05(c *MCase, exp *Expect, obs *mObs, sample func()
 		return
 	}
 	if obs.Err != nil {
+		if exp.IgnoredDrops > 0 && strings.HasPrefix(errSubject(obs.Err), "conflict:") {
+			// the only conflicts of this case are those of updates marked ignore-failure
+			r.Violate("C05/ignored-conflict-failed-request", fmt.Sprintf("every conflicting update of this %s request is marked ignore-failure (%d of them), yet the request failed: %v", c.Kind, exp.IgnoredDrops, obs.Err), c)
+			return
+		}
 		r.Count("skipped_failed_requests", 1)
 		return
 	}
@@ -862,7 +904,7 @@ func runMergeChild(which string, c *ev.ChildEnv, res *ev.Result) {
 			if s.N != n {
 				continue
 			}
-			if which != "C01" && (s.Pattern == "plain" || s.Pattern == "collision-after-ignored-drop" || s.Pattern == "decoy-removal-then-set" || s.Pattern == "same-value" || s.Pattern == "orig-value-then-other") {
+			if which != "C01" && (s.Pattern == "plain" || s.Pattern == "collision-after-ignored-drop" || s.Pattern == "decoy-removal-then-set" || s.Pattern == "same-value" || s.Pattern == "orig-value-then-other" || s.Pattern == "collision-after-ignored-drop-same-response") {
 				continue // the must-fail half belongs to C01
 			}
 			if which == "C03" && s.Path != "create-adjust" {
